@@ -106,6 +106,12 @@ def _parse(f) -> Tuple[Dict[str, Ladder], Dict[str, ast.AST]]:
                 break
         if key is None:
             raise AnalysisError("weights_tetra: cannot classify a region loop")
+        cases: List[Tuple[str, Dict[str, ast.AST]]] = [(key, {})]
+        if key != "acc" and not (key.startswith("der") and key[3:].isdigit()):
+            # one loop shared by several derivative orders: the coefficients are chosen by an if-chain on `der` in front of the loop
+            cases = _der_cases(cond, lp, pm)
+            if not cases:
+                raise AnalysisError(f"weights_tetra: region loop under `{norm1(cond.test)}` without a recognisable per-order coefficient table")
         top = [s for s in lp.body if isinstance(s, ast.If)]
         if len(top) != 1:
             raise AnalysisError("weights_tetra: region loop does not contain exactly one if-ladder")
@@ -114,24 +120,89 @@ def _parse(f) -> Tuple[Dict[str, Ladder], Dict[str, ast.AST]]:
         cur: Optional[ast.If] = node
         names = {"ef>=e4": "above", "ef<e1": "below", "ef>=e3": "3", "ef>=e2": "2", "e4<=ef": "above", "e1>ef": "below", "e3<=ef": "3", "e2<=ef": "2"}
         canon = {"e4<=ef": "ef>=e4", "e1>ef": "ef<e1", "e3<=ef": "ef>=e3", "e2<=ef": "ef>=e2"}
+        for key, binds in cases:
+            guards, regions = [], {}
+            cur = node
+            while cur is not None:
+                tests = list(cur.test.values) if isinstance(cur.test, ast.BoolOp) and isinstance(cur.test.op, ast.Or) else [cur.test]
+                val = _branch_value(cur.body, lambda loc: mkenv({**binds, **loc}, efname))
+                for t_ in tests:
+                    g = norm(t_).replace(" ", "")
+                    g = g.replace(efname, "ef") if efname != "ef" else g
+                    if g not in names:
+                        raise AnalysisError(f"weights_tetra: unknown region guard `{g}`")
+                    guards.append(canon.get(g, g))
+                    regions[names[g]] = val
+                if len(cur.orelse) == 1 and isinstance(cur.orelse[0], ast.If):
+                    cur = cur.orelse[0]
+                else:
+                    guards.append("else")
+                    regions["1"] = _branch_value(cur.orelse, lambda loc: mkenv({**binds, **loc}, efname))
+                    cur = None
+            ladders[key] = Ladder(key, guards, regions, node)
+    return ladders, single
+
+
+def _int_test(t: ast.AST, var: str, k: int) -> Optional[bool]:
+    """truth of a comparison of `var` with an integer literal for var = k (None if the test has another shape)"""
+    if isinstance(t, ast.Compare) and len(t.ops) == 1 and isinstance(t.left, ast.Name) and t.left.id == var and isinstance(t.comparators[0], ast.Constant) \
+            and isinstance(t.comparators[0].value, int):
+        c = t.comparators[0].value
+        op = t.ops[0]
+        return {ast.Eq: k == c, ast.NotEq: k != c, ast.Lt: k < c, ast.LtE: k <= c, ast.Gt: k > c, ast.GtE: k >= c}.get(type(op))
+    return None
+
+
+def _der_cases(cond: ast.If, lp: ast.For, pm) -> List[Tuple[str, Dict[str, ast.AST]]]:
+    """[(\"der<k>\", {name: expression})] for a region loop that serves several derivative orders: the orders k for which the enclosing
+    test holds (and no earlier arm of the same chain), each with the names bound by the arm of the `der == k` chain in front of the loop."""
+    body = cond.body
+    if lp not in body:
+        return []
+    chain_if = [s for s in body[:body.index(lp)] if isinstance(s, ast.If)]
+    if len(chain_if) != 1:
+        return []
+    # earlier arms of the outer chain
+    earlier = []
+    x = cond
+    while x in pm and isinstance(pm[x], ast.If) and pm[x].orelse == [x]:
+        x = pm[x]
+        earlier.append(x.test)
+    out = []
+    for k in range(0, 4):
+        if _int_test(cond.test, "der", k) is not True or any(_int_test(t, "der", k) is not False for t in earlier):
+            continue
+        cur = chain_if[0]
+        arm = None
         while cur is not None:
-            tests = list(cur.test.values) if isinstance(cur.test, ast.BoolOp) and isinstance(cur.test.op, ast.Or) else [cur.test]
-            val = _branch_value(cur.body, lambda loc: mkenv(loc, efname))
-            for t_ in tests:
-                g = norm(t_).replace(" ", "")
-                g = g.replace(efname, "ef") if efname != "ef" else g
-                if g not in names:
-                    raise AnalysisError(f"weights_tetra: unknown region guard `{g}`")
-                guards.append(canon.get(g, g))
-                regions[names[g]] = val
+            tv = _int_test(cur.test, "der", k)
+            if tv is None:
+                return []
+            if tv:
+                arm = cur.body
+                break
             if len(cur.orelse) == 1 and isinstance(cur.orelse[0], ast.If):
                 cur = cur.orelse[0]
             else:
-                guards.append("else")
-                regions["1"] = _branch_value(cur.orelse, lambda loc: mkenv(loc, efname))
+                arm = cur.orelse
                 cur = None
-        ladders[key] = Ladder(key, guards, regions, node)
-    return ladders, single
+        if not arm:
+            return []
+        binds: Dict[str, ast.AST] = {}
+        for st in arm:
+            if isinstance(st, ast.Assign) and len(st.targets) == 1:
+                t, v = st.targets[0], st.value
+                if isinstance(t, ast.Name):
+                    binds[t.id] = v
+                elif isinstance(t, ast.Tuple) and isinstance(v, ast.Tuple) and len(t.elts) == len(v.elts) and all(isinstance(e, ast.Name) for e in t.elts):
+                    for a, b in zip(t.elts, v.elts):
+                        binds[a.id] = b
+                else:
+                    return []
+            else:
+                return []
+        out.append((f"der{k}", binds))
+    return out
 
 
 def _branch_value(body: List[ast.stmt], mkenv) -> Rat:
@@ -149,6 +220,70 @@ def _branch_value(body: List[ast.stmt], mkenv) -> Rat:
     if val is None:
         raise AnalysisError("weights_tetra: region arm does not assign occ[i]")
     return to_rat(val, mkenv(local))
+
+
+def _expand_loop_sums(idx, f, e: ast.AST) -> ast.AST:
+    """Calls of a private helper of the class whose body is an accumulation loop
+           acc = T(lo);  for v in range(lo + 1, hi): acc = acc + T(v)  (or acc += T(v));  return acc [/ (hi − lo)]
+    are replaced by the expression they compute, sum(T(v) for v in range(lo, hi)) [/ (hi − lo)], with the parameters bound."""
+    import copy
+    from ..sem import _Rename
+
+    def expand(c: ast.Call) -> Optional[ast.AST]:
+        fn = c.func
+        if not (isinstance(fn, ast.Attribute) and isinstance(fn.value, ast.Name) and fn.value.id in ("self", "cls") and f.cls is not None):
+            return None
+        g = idx.find_method(f.cls, fn.attr)
+        if g is None or g is f or any(isinstance(a, ast.Starred) for a in c.args):
+            return None
+        body = [s_ for s_ in g.node.body if not (isinstance(s_, ast.Expr) and isinstance(s_.value, ast.Constant))]
+        if len(body) != 3 or not (isinstance(body[0], ast.Assign) and isinstance(body[0].targets[0], ast.Name) and isinstance(body[1], ast.For)
+                                  and isinstance(body[2], ast.Return) and body[2].value is not None):
+            return None
+        acc = body[0].targets[0].id
+        lp = body[1]
+        if not (isinstance(lp.target, ast.Name) and isinstance(lp.iter, ast.Call) and call_name(lp.iter) == "range" and len(lp.iter.args) == 2 and len(lp.body) == 1):
+            return None
+        v = lp.target.id
+        st = lp.body[0]
+        term = None
+        if isinstance(st, ast.AugAssign) and isinstance(st.op, ast.Add) and norm(st.target) == acc:
+            term = st.value
+        elif isinstance(st, ast.Assign) and norm(st.targets[0]) == acc and isinstance(st.value, ast.BinOp) and isinstance(st.value.op, ast.Add):
+            term = st.value.right if norm(st.value.left) == acc else st.value.left if norm(st.value.right) == acc else None
+        if term is None:
+            return None
+        lo1, hi = lp.iter.args
+        if not (isinstance(lo1, ast.BinOp) and isinstance(lo1.op, ast.Add) and norm(lo1.right) == "1"):
+            return None
+        lo = lo1.left
+        t0 = _Rename({}, {v: lo}).visit(copy.deepcopy(term))
+        if norm(t0) != norm(body[0].value):
+            return None
+        total = ast.parse(f"sum({norm(term)} for {v} in range({norm(lo)}, {norm(hi)}))", mode="eval").body
+        ret = body[2].value
+
+        class R(ast.NodeTransformer):
+            def visit_Name(self, n):
+                return copy.deepcopy(total) if n.id == acc and isinstance(n.ctx, ast.Load) else n
+        out = R().visit(copy.deepcopy(ret))
+        params = [p_ for p_ in g.params if p_ not in ("self", "cls")]
+        if len(c.args) > len(params) or c.keywords and any(k.arg not in params for k in c.keywords):
+            return None
+        bind = {p_: a_ for p_, a_ in zip(params, c.args)}
+        bind.update({k.arg: k.value for k in c.keywords})
+        if set(bind) != set(params):
+            return None
+        out = _Rename({}, bind).visit(out)
+        ast.fix_missing_locations(out)
+        return out
+
+    class T(ast.NodeTransformer):
+        def visit_Call(self, n):
+            self.generic_visit(n)
+            r = expand(n)
+            return ast.copy_location(r, n) if r is not None else n
+    return T().visit(copy.deepcopy(e))
 
 
 def run(ctx) -> None:
@@ -434,12 +569,17 @@ def run(ctx) -> None:
         if at_ is None:
             continue
         bound_ = {n_.id for n_ in ast.walk(tgt_) if isinstance(n_, ast.Name)}
+        val_ = _expand_loop_sums(idx, wa, val_)
         vres = AS.resolve(val_, at_) if not isinstance(node_, ast.DictComp) else AS._res_comp(val_, at_, 8, set(), True, bound_)
         m_ = pmatch(vres, PAT, METAS)
         if m_ and m_[0][0] is vres:
             bb = m_[0][1]
             okmean = okmean or (isinstance(key_, ast.Tuple) and [norm(x) for x in key_.elts] == [bb["A_"], bb["B_"]] and isinstance(tgt_, ast.Tuple)
                                 and [norm(x) for x in tgt_.elts] == [bb["A_"], bb["B_"]] and bb["DER_"] == wa.params[2] and bb["SB_"] == "select_bands")
+    from .memo import check_memo_results_not_mutated
+    tw_cls_ = idx.cls(TET, "TetraWeights")
+    if check_memo_results_not_mutated(r8, idx, tw_cls_) == 0:
+        r8.ok("no in-place update of an array handed out by the per-band weight cache")
     r8.check(okmean,
              "group weight = mean of the member bands' weights × band-selection weight", wa, wa.node,
              "the weight of a degenerate group is not the mean over exactly its bands [ib1, ib2)", stmt="group mean")
